@@ -178,9 +178,11 @@ def main(argv=None) -> int:
                                 "traces_validated_against_impl", "exhaustive", "distinct_outcomes") if k in cov}
     print(f"{prop} tier={a.tier} seed={core.seed()} wall={timer.s()}s {summ} "
           f"violations={len(viol_lines)} known={len(seen_f)}")
+    if viol_lines:
+        return 1   # every listed violation was reproduced from its replay file in a fresh interpreter: it stands, whatever else went wrong
     if harness:
         return 2
-    return 1 if viol_lines else 0
+    return 0
 
 
 def _main_with_scratch() -> int:
